@@ -164,6 +164,9 @@ func (s *scripted) Forward(req []byte) ([]byte, error) {
 	if len(req) > 0 && req[0] == 0xFE {
 		return nil, errFail
 	}
+	if len(req) > 0 && req[0] == 0xFD { // the reply is the rest of the request, verbatim
+		return append([]byte{}, req[1:]...), nil
+	}
 	return append([]byte{0xAA}, req...), nil
 }
 func (s *scripted) AddHardCert(key ssh.PublicKey, comment string) error {
